@@ -367,6 +367,7 @@ ERROR_CATS = [
     ("neither in the preceding generation", "chain"),
     ("never evaluated", "chain"),
     ("unevaluated individual", "chain"),
+    ("best observed value forgotten", "observed"),
     ("elitist engine lost ground", "elitism"),
     ("order statistic", "elitism"),
     ("individuals, expected", "size"),
@@ -397,7 +398,7 @@ RELEVANT = {
     "C01": {"box"},
     "C02": {"chain", "hist"},
     "C03": {"count", "budget", "evals", "counter", "invocations"},
-    "C04": {"best"},
+    "C04": {"best", "observed"},
     "C05": {"control", "metaepoch"},
     "C06": {"schedule", "active", "me", "gens", "control"},
     "C07": {"structure", "levels", "id", "level", "parent", "startedAt", "children", "seed", "cls"},
